@@ -574,6 +574,30 @@ func (c *Check) chunkTiling() {
 	default:
 		c.ok("C16-R6", key, p.relFile(sl.Pos()), "chunks sources[start:end] tile the source list", fmt.Sprintf("start = 0, +%d; end = min(start+%d, len(sources)); both steps equal", step, endStep))
 	}
+	// R7: the chunk loop is left only through its condition or through an error return
+	if hdrBlock := start.Block(); hdrBlock != nil {
+		inLoop := naturalLoop(hdrBlock)
+		bad := ""
+		for b := range inLoop {
+			for _, sc := range b.Succs {
+				if inLoop[sc] || b == hdrBlock {
+					continue
+				}
+				// an exit from inside the loop body: must be an error return
+				if ret, ok := sc.Instrs[len(sc.Instrs)-1].(*ssa.Return); ok && len(sc.Instrs) <= 2 {
+					if k, isConst := ret.Results[len(ret.Results)-1].(*ssa.Const); !isConst || !k.IsNil() {
+						continue
+					}
+				}
+				bad = p.relFile(b.Instrs[len(b.Instrs)-1].Pos())
+			}
+		}
+		if bad == "" {
+			c.ok("C16-R6", "tiling:exits", p.relFile(f.Pos()), "the chunk loop visits every chunk", "it is left only through its condition or through an error return")
+		} else {
+			c.bad("C16-R6", "tiling:exits", p.relFile(f.Pos()), "the chunk loop can be left early without an error (a break): the remaining chunks are never fetched although their sources may be fine")
+		}
+	}
 	// the loop runs while start < len(sources)
 	okCond := false
 	for _, b := range f.Blocks {
